@@ -234,7 +234,7 @@ def effective_access(eng, f, st):
 
 
 def check_guarded_fields(ctx, rid, cls, only_fields=None, doc=None, only_functions=None, skip_atomic=False,
-                         assume_enabled=True):
+                         assume_enabled=True, reads_exclusive=False):
     """A3 over every method of class template `cls`.  Emits one obligation per
     field reference.  Returns number of obligations."""
     fb, eng = ctx.fb, ctx.eng
@@ -256,8 +256,8 @@ def check_guarded_fields(ctx, rid, cls, only_fields=None, doc=None, only_functio
     for f, top in class_functions(fb, cls):
         if top.kind in ("ctor", "dtor"):
             continue
-        if only_functions is not None and top.name not in only_functions and top.kind != "conv":
-            continue
+        if only_functions is not None and top.name not in only_functions and top.kind != "conv" and top.access != "private":
+            continue        # (private helpers stay in: what they need is checked at their callers, which may be selected)
         la = locks_of(eng, fb, f)
         opts = {"this." + e["opt"]: True for e in tab.values() if e.get("opt")}
         if opts and assume_enabled:
@@ -326,6 +326,8 @@ def check_guarded_fields(ctx, rid, cls, only_fields=None, doc=None, only_functio
                     n += 1
                     continue
             need = ent["r"] if acc in READ_KINDS else ent["w"]
+            if reads_exclusive and need == "S":
+                need = "X"      # a wrapper that promises one thread at a time for ANY access (C01: guarded, guarded_opt)
             if need == "never":
                 ctx.ob(rid, False, site, "%s is never written outside the constructor" % name,
                        "use kind '%s'" % acc, fn=top.label, inst=inst)
